@@ -105,3 +105,36 @@ package ipa
 //@ loop 0 invariant forall k int :: (0 <= k && k < n0) || k >= wlen(w) ==> wout(w, k) == old(wout(w, k))
 //@ loop 1 invariant forall k int :: (0 <= k && k < n0) || k >= wlen(w) ==> wout(w, k) == old(wout(w, k))
 //@ loop 1 invariant 0 - 1 <= rangeindex && rangeindex < len(ip.R) && wcalls(w) == c0 + len(ip.L) + rangeindex + 1 && wlen(w) == n0 + 32 * (len(ip.L) + rangeindex + 1) && !(c0 <= wr_fail(w) && wr_fail(w) < c0 + len(ip.L) + rangeindex + 1)
+
+// ---- config.go helpers and the b-vector (C04)
+
+//@ pkginv maxEvalPointInsideDomain == fr_of_int(255)
+
+//@ func InnerProd
+//@ props C04 C02
+//@ prelude field ipa
+//@ ensures err != nil <==> len(a) != len(b)
+//@ ensures err == nil ==> result0 == ipsum(a, b, len(a))
+//@ loop 0 invariant 0 <= i && i <= len(a) && len(a) == len(b) && result == ipsum(a, b, i)
+
+//@ func foldScalars
+//@ props C04 C13
+//@ prelude field
+//@ ensures err != nil <==> len(a) != len(b)
+//@ ensures err == nil ==> fresh(result0) && len(result0) == len(a) && (forall k int :: 0 <= k && k < len(a) ==> result0[k] == x * b[k] + a[k])
+//@ loop 0 invariant 0 <= i && i <= len(a) && len(a) == len(b) && len(result) == len(a) && fresh(result)
+//@ loop 0 invariant forall k int :: 0 <= k && k < i ==> result[k] == x * b[k] + a[k]
+
+//@ func splitScalars
+//@ props C04 C13
+//@ prelude field
+//@ ensures err != nil <==> len(x) % 2 != 0
+//@ ensures err == nil ==> sameslice(result0, x[0:len(x)/2]) && sameslice(result1, x[len(x)/2:len(x)])
+
+//@ func computeBVector
+//@ props C04
+//@ prelude field bary
+//@ requires validPW(ic.PrecomputedWeights) && obj(ic.PrecomputedWeights) >= 1
+//@ ensures fresh(result) && len(result) == 256
+//@ ensures fr_to_int(evalPoint) > 255 ==> (forall k int :: 0 <= k && k < 256 ==> result[k] == fr_inv((evalPoint - fr_of_int(k)) * Aprime(k)) * Az(evalPoint))
+//@ ensures fr_to_int(evalPoint) <= 255 ==> (forall k int :: 0 <= k && k < 256 ==> result[k] == (k == fr_to_int(evalPoint) ? fr_one : fr_zero))
